@@ -33,8 +33,9 @@ type c23Case struct {
 var c23ROM = machine.MakeROM(0, 0, 0)
 
 // I/O addresses other than SB/SC that the direct sequences also write: chosen to
-// be harmless for a machine without a CPU (no DMA, no cartridge RAM).
-var c23OtherIO = []uint16{0xff00, 0xff03, 0xff04, 0xff05, 0xff06, 0xff07, 0xff0f, 0xff42, 0xff43, 0xff45, 0xff47, 0xff4a, 0xff4b, 0xff80, 0xfffe, 0xffff, 0xc000, 0xdfff, 0xff7f, 0xff10, 0xff26}
+// be harmless for a machine without a CPU (no cartridge RAM). FF46 is among them:
+// a DMA transfer in flight must not keep a byte written to SB from being delivered.
+var c23OtherIO = []uint16{0xff46, 0xff46, 0xff00, 0xff03, 0xff04, 0xff05, 0xff06, 0xff07, 0xff0f, 0xff42, 0xff43, 0xff45, 0xff47, 0xff4a, 0xff4b, 0xff80, 0xfffe, 0xffff, 0xc000, 0xdfff, 0xff7f, 0xff10, 0xff26}
 
 func c23Digest(m *machine.M) string {
 	var b bytes.Buffer
